@@ -589,7 +589,13 @@ pub fn run(sink: &mut Sink, rng: &mut Rng, thorough: bool, dir: &Path) {
     let n = if thorough { 60 } else { 8 };
     for k in 0..n {
       let mut dates: Vec<(u64, u64, u64, u64, u64, u64, u64)> = Vec::new();
-      for j in 0..6 {
+      if k < 2 {
+        // directed: January / February / 1 March of century years (leap and not), 29 February 2000 and 2400, 31 December
+        let fixed: [(u64, u64, u64); 12] = [(1900, 1, 1), (1900, 2, 28), (1900, 3, 1), (2100, 1, 15), (2100, 2, 28), (1800, 2, 1),
+          (2000, 2, 29), (2000, 1, 31), (1700, 2, 28), (2400, 2, 29), (1999, 12, 31), (2000, 3, 1)];
+        for j in 0..6 { let f = fixed[(6 * k + j) as usize]; dates.push((f.0, f.1, f.2, rng.below(24), rng.below(60), rng.below(60), 0)); }
+      }
+      for j in 0..(if k < 2 { 0 } else { 6 }) {
         let y = match (k + j) % 5 { 0 => [1600u64, 1700, 1800, 1900, 2000, 2100, 2400][rng.below(7) as usize], 1 => 4 * (400 + rng.below(200)), _ => 1583 + rng.below(818) };
         let leap = y % 4 == 0 && (y % 100 != 0 || y % 400 == 0);
         let m = if j % 3 == 0 { 2 } else { 1 + rng.below(12) };
